@@ -1,8 +1,11 @@
-(** Proofs about the set-input model (SetInput.v). *)
-From Coq Require Import ZArith QArith List Bool Lia.
+(** Proofs about the set-input model (SetInput.v): the divide and dispatch rules over an
+    arbitrary list of sub-period keys, their lifting to [sim_set_input] and to histories. *)
+From Coq Require Import ZArith QArith List Bool Lia Qfield Qround.
 From Verif Require Import Base Cal Tables Period SetInput CalProofs.
 Import ListNotations.
 Open Scope Z_scope.
+
+(** * Keys *)
 
 Lemma unit_eqb_eq a b : unit_eqb a b = true <-> a = b.
 Proof. destruct a, b; cbn; split; intros H; try reflexivity; discriminate. Qed.
@@ -13,3 +16,510 @@ Proof.
   rewrite !andb_true_iff, unit_eqb_eq, date_eqb_eq, Z.eqb_eq.
   split; [intros [[-> ->] ->]; reflexivity | intros H; inversion H; auto].
 Qed.
+
+Lemma period_eqb_refl p : period_eqb p p = true.
+Proof. apply period_eqb_eq. reflexivity. Qed.
+
+Lemma period_eqb_neq p q : p <> q -> period_eqb p q = false.
+Proof.
+  intros H. destruct (period_eqb p q) eqn:E; [|reflexivity]. apply period_eqb_eq in E. contradiction.
+Qed.
+
+Lemma period_eq_dec (p q : period) : {p = q} + {p <> q}.
+Proof.
+  destruct (period_eqb p q) eqn:E; [left; apply period_eqb_eq; assumption|].
+  right. intros ->. rewrite period_eqb_refl in E. discriminate.
+Qed.
+
+(** * The dictionary *)
+
+Lemma get_put_same h p a : get (put h p a) p = Some a.
+Proof.
+  induction h as [|[k w] h IH]; cbn [put get].
+  - rewrite period_eqb_refl. reflexivity.
+  - destruct (period_eqb k p) eqn:E; cbn [get]; rewrite E; [reflexivity|assumption].
+Qed.
+
+Lemma get_put_other h p q a : p <> q -> get (put h p a) q = get h q.
+Proof.
+  intros Hn. induction h as [|[k w] h IH]; cbn [put get].
+  - rewrite (period_eqb_neq p q Hn). reflexivity.
+  - destruct (period_eqb k p) eqn:E; cbn [get].
+    + apply period_eqb_eq in E. subst k. rewrite (period_eqb_neq p q Hn). reflexivity.
+    + destruct (period_eqb k q); [reflexivity|assumption].
+Qed.
+
+Lemma wf_put n h p a : wf_holder n h -> Z.of_nat (length a) = n -> wf_holder n (put h p a).
+Proof.
+  intros Hw Ha q b Hg. destruct (period_eq_dec p q) as [->|Hn].
+  - rewrite get_put_same in Hg. injection Hg as <-. exact Ha.
+  - rewrite get_put_other in Hg by assumption. eapply Hw; eassumption.
+Qed.
+
+Lemma wf_nil n : wf_holder n [].
+Proof. intros p a H. discriminate. Qed.
+
+(** * The cast *)
+
+Lemma qtrunc_inject z : qtrunc (inject_Z z) = inject_Z z.
+Proof. unfold qtrunc, inject_Z; cbn [Qnum Qden]. rewrite Z.quot_1_r. reflexivity. Qed.
+
+Lemma cast_idem t q : cast t (cast t q) = cast t q.
+Proof. destruct t; cbn [cast]; [reflexivity|]. unfold qtrunc at 2. apply qtrunc_inject. Qed.
+
+Lemma map_cast_idem t a : map (cast t) (map (cast t) a) = map (cast t) a.
+Proof. rewrite map_map. apply map_ext. intros. apply cast_idem. Qed.
+
+Lemma cast_float q : cast VFloat q = q.
+Proof. reflexivity. Qed.
+
+(** the int cast leaves integers alone *)
+Lemma cast_int_exact t z : cast t (inject_Z z) = inject_Z z.
+Proof. destruct t; [reflexivity|apply qtrunc_inject]. Qed.
+
+(** * [to_array] and [_set] *)
+
+Lemma to_array_ok v n a : Z.of_nat (length a) = n -> to_array v n a = Ok (map (cast (v_type v)) a).
+Proof. intros H. unfold to_array. rewrite (proj2 (Z.eqb_eq _ _) H). reflexivity. Qed.
+
+Lemma to_array_inv v n a a' : to_array v n a = Ok a' ->
+  Z.of_nat (length a) = n /\ a' = map (cast (v_type v)) a.
+Proof.
+  unfold to_array. destruct (Z.of_nat (length a) =? n) eqn:E; [|discriminate].
+  intros H. inversion H. apply Z.eqb_eq in E. auto.
+Qed.
+
+Lemma holder_get_ne v h t : eternal v = false -> holder_get v h t = get h t.
+Proof. intros H. unfold holder_get, storage_key. rewrite H. reflexivity. Qed.
+
+Lemma set_tile v n h t a :
+  eternal v = false -> tile_ok v t -> Z.of_nat (length a) = n ->
+  _set v n h t a = Ok (put h t (map (cast (v_type v)) a)).
+Proof.
+  intros He [Hu Hs] Ha. unfold _set. rewrite (to_array_ok v n a Ha). cbn [bind].
+  unfold storage_key. rewrite He.
+  assert (E1 : unit_eqb (v_def v) (p_unit t) = true) by (apply unit_eqb_eq; congruence).
+  assert (E2 : (1 <? p_size t) = false) by (apply Z.ltb_ge; assumption).
+  rewrite E1, E2. reflexivity.
+Qed.
+
+(** whatever [_set] does, it stores an array of the right length under one key *)
+Lemma set_inv v n h p a h' : _set v n h p a = Ok h' ->
+  h' = put h (storage_key v p) (map (cast (v_type v)) a) /\ Z.of_nat (length a) = n.
+Proof.
+  unfold _set. destruct (to_array v n a) as [a'|] eqn:E; cbn [bind]; [|discriminate].
+  apply to_array_inv in E. destruct E as [Hl ->].
+  destruct (eternal v).
+  - intros H; inversion H; auto.
+  - destruct (negb (unit_eqb (v_def v) (p_unit p)) || (1 <? p_size p)); [discriminate|].
+    intros H; inversion H; auto.
+Qed.
+
+(** * The storing loop (second loop of divide, only loop of dispatch) *)
+
+(** Without any hypothesis: a value that is known stays, and stays the same. *)
+Lemma dispatch_tiles_persist v n : forall T h a h', dispatch_tiles v n h T a = Ok h' ->
+  forall q x, get h q = Some x -> get h' q = Some x.
+Proof.
+  induction T as [|t T IH]; intros h a h' H q x Hq; cbn [dispatch_tiles] in H.
+  - inversion H; subst; assumption.
+  - destruct (holder_get v h t) eqn:G.
+    + eapply IH; eassumption.
+    + destruct (_set v n h t a) as [h1|] eqn:S; cbn [bind] in H; [|discriminate].
+      apply set_inv in S. destruct S as [-> _].
+      eapply IH; [eassumption|].
+      rewrite get_put_other; [assumption|].
+      intros E. unfold holder_get in G. rewrite E in G. congruence.
+Qed.
+
+Lemma dispatch_tiles_wf v n : forall T h a h', dispatch_tiles v n h T a = Ok h' ->
+  wf_holder n h -> wf_holder n h'.
+Proof.
+  induction T as [|t T IH]; intros h a h' H Hw; cbn [dispatch_tiles] in H.
+  - inversion H; subst; assumption.
+  - destruct (holder_get v h t) eqn:G.
+    + eapply IH; eassumption.
+    + destruct (_set v n h t a) as [h1|] eqn:S; cbn [bind] in H; [|discriminate].
+      apply set_inv in S. destruct S as [-> Hl].
+      eapply IH; [eassumption|]. apply wf_put; [assumption|]. rewrite map_length. assumption.
+Qed.
+
+Lemma dispatch_tiles_spec v n : eternal v = false -> forall T h a,
+  Forall (tile_ok v) T -> Z.of_nat (length a) = n ->
+  exists h', dispatch_tiles v n h T a = Ok h'
+    /\ (forall t, In t T -> get h t = None -> get h' t = Some (map (cast (v_type v)) a))
+    /\ (forall q, ~ In q T -> get h' q = get h q).
+Proof.
+  intros He. induction T as [|t T IH]; intros h a HT Ha.
+  - exists h. cbn. split; [reflexivity|]. split; [intros t []|reflexivity].
+  - pose proof (Forall_inv HT) as Ht. pose proof (Forall_inv_tail HT) as HT'. cbn [dispatch_tiles].
+    rewrite (holder_get_ne v h t He).
+    destruct (get h t) as [e|] eqn:G.
+    + destruct (IH h a HT' Ha) as [h' [E [F1 F2]]]. exists h'. split; [assumption|]. split.
+      * intros t' [<-|Hin] Hn; [congruence|]. apply F1; assumption.
+      * intros q Hq. apply F2. intros Hin. apply Hq. right. assumption.
+    + rewrite (set_tile v n h t a He Ht Ha). cbn [bind].
+      set (a' := map (cast (v_type v)) a).
+      destruct (IH (put h t a') a HT' Ha) as [h' [E [F1 F2]]]. exists h'. split; [assumption|]. split.
+      * intros t' Hin Hn. destruct (period_eq_dec t t') as [<-|Hne].
+        -- eapply dispatch_tiles_persist; [eassumption|]. apply get_put_same.
+        -- destruct Hin as [->|Hin]; [contradiction|]. apply F1; [assumption|].
+           rewrite get_put_other; assumption.
+      * intros q Hq. rewrite F2 by (intros Hin; apply Hq; right; assumption).
+        apply get_put_other. intros ->. apply Hq. left. reflexivity.
+Qed.
+
+(** * Arrays, entity by entity *)
+
+Lemma ent_nil i : ent i [] = 0%Q.
+Proof. destruct i; reflexivity. Qed.
+
+Lemma ent_asub : forall r e i, length r = length e -> (ent i (asub r e) == ent i r - ent i e)%Q.
+Proof.
+  induction r as [|x r IH]; intros [|y e] i Hl; try discriminate.
+  - unfold asub, ent. cbn [combine map]. destruct i; cbn [nth]; ring.
+  - destruct i; unfold asub, ent; cbn [combine map nth fst snd].
+    + reflexivity.
+    + apply IH. cbn in Hl. lia.
+Qed.
+
+Lemma length_asub r e : length r = length e -> length (asub r e) = length r.
+Proof. intros H. unfold asub. rewrite map_length, combine_length. lia. Qed.
+
+Lemma ent_map (f : Q -> Q) a i : (i < length a)%nat -> ent i (map f a) = f (ent i a).
+Proof.
+  intros H. unfold ent. rewrite (nth_indep (map f a) 0%Q (f 0%Q)) by (rewrite map_length; assumption).
+  apply map_nth.
+Qed.
+
+Lemma ent_adiv a k i : (i < length a)%nat -> ent i (adiv a k) = (ent i a / inject_Z k)%Q.
+Proof. intros H. unfold adiv. apply (ent_map (fun x => (x / inject_Z k)%Q)). assumption. Qed.
+
+Lemma all_zero_spec a : all_zero a = true <-> forall i, (i < length a)%nat -> (ent i a == 0)%Q.
+Proof.
+  unfold all_zero. rewrite forallb_forall. split.
+  - intros H i Hi. apply Qeq_bool_iff. apply H. apply nth_In. assumption.
+  - intros H x Hx. apply Qeq_bool_iff. destruct (In_nth a x 0%Q Hx) as [i [Hi <-]]. apply H. assumption.
+Qed.
+
+(** * The counting loop *)
+
+Lemma divide_count_spec v n h : eternal v = false -> wf_holder n h -> forall T rem cnt,
+  Z.of_nat (length rem) = n ->
+  snd (divide_count v h T rem cnt) = cnt + Z.of_nat (length (unknown_tiles v h T))
+  /\ length (fst (divide_count v h T rem cnt)) = length rem
+  /\ forall i, (ent i (fst (divide_count v h T rem cnt))
+                == ent i rem - qsum (map (val v n h i) (known_tiles v h T)))%Q.
+Proof.
+  intros He Hw. induction T as [|t T IH]; intros rem cnt Hl.
+  - cbn [divide_count fst snd]. unfold known_tiles, unknown_tiles. cbn [filter map length].
+    split; [lia|]. split; [reflexivity|]. intros i. unfold qsum; cbn [fold_right]. ring.
+  - cbn [divide_count]. unfold known_tiles, unknown_tiles in *. cbn [filter].
+    destruct (holder_get v h t) as [e|] eqn:G;
+      [assert (K : is_known v h t = true) by (unfold is_known; rewrite G; reflexivity)
+      |assert (K : is_known v h t = false) by (unfold is_known; rewrite G; reflexivity)];
+      rewrite K; cbn [negb].
+    + assert (Le : length rem = length e).
+      { rewrite holder_get_ne in G by assumption. apply Hw in G. lia. }
+      destruct (IH (asub rem e) cnt) as [I1 [I2 I3]]; [rewrite length_asub; assumption|].
+      split; [assumption|]. split; [rewrite I2; apply length_asub; assumption|].
+      intros i. rewrite I3. rewrite (ent_asub rem e i Le). cbn [map]. unfold qsum at 2. cbn [fold_right].
+      change (val v n h i t) with (ent i (getd v n h t)). unfold getd. rewrite G. cbn [map].
+      fold (qsum (map (val v n h i) (filter (is_known v h) T))). ring.
+    + destruct (IH rem (cnt + 1) Hl) as [I1 [I2 I3]].
+      split; [rewrite I1; cbn [length]; lia|]. split; assumption.
+Qed.
+
+(** * The cast respects equality of rationals *)
+
+Lemma qtrunc_compat x y : (x == y)%Q -> qtrunc x = qtrunc y.
+Proof.
+  intros E. unfold qtrunc. f_equal.
+  assert (F := Qfloor_comp x y E). assert (C := Qceiling_comp x y E).
+  destruct x as [a b], y as [c d]. unfold Qeq in E. cbn [Qnum Qden] in *.
+  unfold Qceiling, Qfloor, Qopp in *; cbn [Qnum Qden] in *.
+  destruct (Z_le_gt_dec 0 a).
+  - assert (0 <= c) by nia. rewrite !Z.quot_div_nonneg by lia. exact F.
+  - assert (c < 0) by nia.
+    assert (Qa : forall p q, p < 0 -> Z.quot p (Zpos q) = - ((- p) / Zpos q)).
+    { intros p q Hp. rewrite <- Z.quot_div_nonneg by lia. rewrite Z.quot_opp_l by lia. lia. }
+    rewrite !Qa by lia. exact C.
+Qed.
+
+Lemma cast_compat t x y : (x == y)%Q -> (cast t x == cast t y)%Q.
+Proof. intros E. destruct t; cbn [cast]; [assumption|]. rewrite (qtrunc_compat x y E). reflexivity. Qed.
+
+(** * Sums over the tiles, split into known and unknown ones *)
+
+Lemma qsum_split (f g : period -> Q) (p : period -> bool) (c : Q) : forall T,
+  (forall t, In t T -> p t = true -> (g t == f t)%Q) ->
+  (forall t, In t T -> p t = false -> (g t == c)%Q) ->
+  (qsum (map g T) == qsum (map f (filter p T))
+     + inject_Z (Z.of_nat (length (filter (fun t => negb (p t)) T))) * c)%Q.
+Proof.
+  induction T as [|t T IH]; intros H1 H2.
+  - cbn. ring.
+  - assert (IH' := IH (fun t' Hin => H1 t' (or_intror Hin)) (fun t' Hin => H2 t' (or_intror Hin))).
+    unfold qsum in *. cbn [map filter fold_right]. rewrite IH'.
+    destruct (p t) eqn:E; cbn [negb map length fold_right].
+    + rewrite (H1 t (or_introl eq_refl) E). ring.
+    + rewrite (H2 t (or_introl eq_refl) E). rewrite Nat2Z.inj_succ, <- Z.add_1_r, inject_Z_plus. ring.
+Qed.
+
+Lemma inject_Z_nonzero k : k <> 0 -> ~ (inject_Z k == 0)%Q.
+Proof. intros H E. unfold Qeq, inject_Z in E. cbn in E. lia. Qed.
+
+(** * The divide rule over an arbitrary list of sub-period keys *)
+
+Lemma divide_tiles_persist v n h T a h' : divide_tiles v n h T a = Ok h' ->
+  forall q x, get h q = Some x -> get h' q = Some x.
+Proof.
+  unfold divide_tiles. destruct (0 <? snd (divide_count v h T a 0)).
+  - apply dispatch_tiles_persist.
+  - destruct (all_zero _); [|discriminate]. intros H; inversion H; subst; auto.
+Qed.
+
+Lemma divide_tiles_wf v n h T a h' : divide_tiles v n h T a = Ok h' -> wf_holder n h -> wf_holder n h'.
+Proof.
+  unfold divide_tiles. destruct (0 <? snd (divide_count v h T a 0)).
+  - apply dispatch_tiles_wf.
+  - destruct (all_zero _); [|discriminate]. intros H; inversion H; subst; auto.
+Qed.
+
+Lemma known_get v h t : eternal v = false -> is_known v h t = true -> exists e, get h t = Some e.
+Proof.
+  intros He. unfold is_known. rewrite holder_get_ne by assumption.
+  destruct (get h t) as [e|]; [eexists; reflexivity|discriminate].
+Qed.
+
+Lemma unknown_get v h t : eternal v = false -> is_known v h t = false -> get h t = None.
+Proof.
+  intros He. unfold is_known. rewrite holder_get_ne by assumption.
+  destruct (get h t) as [e|]; [discriminate|reflexivity].
+Qed.
+
+Lemma divide_tiles_fill v n h T a :
+  eternal v = false -> wf_holder n h -> Z.of_nat (length a) = n -> Forall (tile_ok v) T ->
+  0 < n_unknown v h T ->
+  exists h', divide_tiles v n h T a = Ok h' /\ wf_holder n h'
+    /\ (forall q x, get h q = Some x -> get h' q = Some x)
+    /\ (forall q, ~ In q T -> get h' q = get h q)
+    /\ (forall t, In t T -> get h t = None ->
+          exists x, get h' t = Some x /\ length x = length a /\
+            forall i, (i < length a)%nat -> (ent i x == cast (v_type v) (share v n h T a i))%Q)
+    /\ (forall i, (i < length a)%nat ->
+          (cast (v_type v) (share v n h T a i) == share v n h T a i)%Q ->
+          (qsum (map (val v n h' i) T) == ent i a)%Q).
+Proof.
+  intros He Hw Ha HT Hk.
+  destruct (divide_count_spec v n h He Hw T a 0 Ha) as [I1 [I2 I3]].
+  rewrite Z.add_0_l in I1. fold (n_unknown v h T) in I1.
+  unfold divide_tiles. set (rc := divide_count v h T a 0) in *.
+  rewrite I1. rewrite (proj2 (Z.ltb_lt _ _) Hk).
+  set (d := adiv (fst rc) (n_unknown v h T)).
+  assert (Ld : length d = length a) by (unfold d, adiv; rewrite map_length; assumption).
+  destruct (dispatch_tiles_spec v n He T h d HT ltac:(rewrite Ld; assumption)) as [h' [E [F1 F2]]].
+  assert (U : forall t, In t T -> get h t = None ->
+          exists x, get h' t = Some x /\ length x = length a /\
+            forall i, (i < length a)%nat -> (ent i x == cast (v_type v) (share v n h T a i))%Q).
+  { intros t Hin Hn. exists (map (cast (v_type v)) d). split; [apply F1; assumption|].
+    split; [rewrite map_length; assumption|]. intros i Hi.
+    rewrite ent_map by (rewrite Ld; assumption).
+    unfold d. rewrite ent_adiv by (rewrite I2; assumption).
+    apply cast_compat. unfold share, remainder. rewrite I3. reflexivity. }
+  exists h'. split; [assumption|].
+  split; [eapply dispatch_tiles_wf; eassumption|].
+  split; [eapply dispatch_tiles_persist; eassumption|].
+  split; [assumption|]. split; [assumption|].
+  intros i Hi Hex.
+  rewrite (qsum_split (val v n h i) (val v n h' i) (is_known v h) (cast (v_type v) (share v n h T a i))).
+  - fold (unknown_tiles v h T). fold (n_unknown v h T). fold (known_tiles v h T).
+    rewrite Hex. unfold share at 1. rewrite Qmult_div_r by (apply inject_Z_nonzero; lia).
+    unfold remainder. ring.
+  - intros t Hin Hkn. destruct (known_get v h t He Hkn) as [e Ge].
+    unfold val, getd. rewrite !holder_get_ne by assumption.
+    rewrite Ge. rewrite (dispatch_tiles_persist _ _ _ _ _ _ E t e Ge). reflexivity.
+  - intros t Hin Hkn. apply (unknown_get v h t He) in Hkn.
+    destruct (U t Hin Hkn) as [x [Gx [_ Vx]]].
+    unfold val, getd. rewrite holder_get_ne by assumption. rewrite Gx. apply Vx. assumption.
+Qed.
+
+Lemma divide_tiles_full v n h T a :
+  eternal v = false -> wf_holder n h -> Z.of_nat (length a) = n ->
+  n_unknown v h T = 0 ->
+  ((forall i, (i < length a)%nat -> (remainder v n h T a i == 0)%Q) ->
+     divide_tiles v n h T a = Ok h
+     /\ forall i, (i < length a)%nat -> (qsum (map (val v n h i) T) == ent i a)%Q)
+  /\ ((exists i, (i < length a)%nat /\ ~ (remainder v n h T a i == 0)%Q) ->
+     divide_tiles v n h T a = Err EValue).
+Proof.
+  intros He Hw Ha Hk.
+  destruct (divide_count_spec v n h He Hw T a 0 Ha) as [I1 [I2 I3]].
+  rewrite Z.add_0_l in I1. fold (n_unknown v h T) in I1.
+  unfold divide_tiles. set (rc := divide_count v h T a 0) in *.
+  rewrite I1, Hk. cbn [Z.ltb Z.compare].
+  split.
+  - intros Hz. assert (Az : all_zero (fst rc) = true).
+    { apply all_zero_spec. intros i Hi. rewrite I3. apply Hz. rewrite <- I2. assumption. }
+    rewrite Az. split; [reflexivity|]. intros i Hi.
+    rewrite (qsum_split (val v n h i) (val v n h i) (is_known v h) 0%Q).
+    + fold (unknown_tiles v h T). fold (n_unknown v h T). fold (known_tiles v h T). rewrite Hk.
+      specialize (Hz i Hi). unfold remainder in Hz.
+      setoid_replace (ent i a) with (ent i a - qsum (map (val v n h i) (known_tiles v h T))
+                                     + qsum (map (val v n h i) (known_tiles v h T)))%Q by ring.
+      rewrite Hz. ring.
+    + reflexivity.
+    + intros t Hin Hkn. exfalso.
+      assert (Hin' : In t (unknown_tiles v h T)).
+      { unfold unknown_tiles. apply filter_In. split; [assumption|]. rewrite Hkn. reflexivity. }
+      unfold n_unknown in Hk. destruct (unknown_tiles v h T); [contradiction|]. cbn [length] in Hk. lia.
+  - intros [i [Hi Hnz]]. destruct (all_zero (fst rc)) eqn:Az; [|reflexivity].
+    exfalso. apply Hnz. unfold remainder. rewrite <- I3.
+    apply (proj1 (all_zero_spec (fst rc)) Az). rewrite I2. assumption.
+Qed.
+
+(** * The dispatch rule over an arbitrary list of sub-period keys *)
+
+Lemma dispatch_tiles_repeats v n h T a :
+  eternal v = false -> wf_holder n h -> Z.of_nat (length a) = n -> Forall (tile_ok v) T ->
+  exists h', dispatch_tiles v n h T a = Ok h' /\ wf_holder n h'
+    /\ (forall q x, get h q = Some x -> get h' q = Some x)
+    /\ (forall q, ~ In q T -> get h' q = get h q)
+    /\ (forall t, In t T -> get h t = None -> get h' t = Some (map (cast (v_type v)) a)).
+Proof.
+  intros He Hw Ha HT.
+  destruct (dispatch_tiles_spec v n He T h a HT Ha) as [h' [E [F1 F2]]].
+  exists h'. split; [assumption|].
+  split; [eapply dispatch_tiles_wf; eassumption|].
+  split; [eapply dispatch_tiles_persist; eassumption|].
+  split; assumption.
+Qed.
+
+(** * The walk only produces keys that [_set] accepts *)
+
+Lemma offset_shape sp nx : offset sp 1 None = Ok nx -> p_unit nx = p_unit sp /\ p_size nx = p_size sp.
+Proof.
+  destruct sp as [[pu s] sz]. unfold offset.
+  destruct (instant_offset s 1 pu) as [s'|]; cbn [bind]; [|discriminate].
+  intros H; inversion H; subst. split; reflexivity.
+Qed.
+
+Lemma walk_shape after : forall fuel sp T, walk fuel sp after = Ok T ->
+  Forall (fun t => p_unit t = p_unit sp /\ p_size t = p_size sp) T.
+Proof.
+  induction fuel as [|f IH]; intros sp T H; cbn [walk] in H; [discriminate|].
+  destruct (date_ltb (p_start sp) after); [|inversion H; constructor].
+  destruct (offset sp 1 None) as [nx|] eqn:O; cbn [bind] in H; [|discriminate].
+  destruct (walk f nx after) as [r|] eqn:W; cbn [bind] in H; [|discriminate].
+  inversion H; subst. constructor; [split; reflexivity|].
+  destruct (offset_shape sp nx O) as [Eu Es]. rewrite <- Eu, <- Es. apply IH. assumption.
+Qed.
+
+Lemma walk_tiles_ok v P T : walk_tiles v P = Ok T -> Forall (tile_ok v) T.
+Proof.
+  unfold walk_tiles. destruct (instant_offset _ _ _) as [after|]; cbn [bind]; [|discriminate].
+  intros H. apply walk_shape in H. eapply Forall_impl; [|exact H].
+  intros t [Hu Hs]. unfold tile_ok, p_unit, p_size in *; cbn [fst snd] in *. split; [assumption|lia].
+Qed.
+
+(** * Routing: what [Simulation.set_input] reduces to *)
+
+Lemma unit_eqb_neq a b : a <> b -> unit_eqb a b = false.
+Proof. intros H. destruct (unit_eqb a b) eqn:E; [apply unit_eqb_eq in E; contradiction|reflexivity]. Qed.
+
+Lemma sim_to_holder v n h P a : not_after_end v P -> p_unit P <> Eternity ->
+  sim_set_input v n h P a = holder_set_input v n h P a.
+Proof.
+  intros He Hp. unfold sim_set_input, not_after_end in *. destruct (v_end v) as [e|]; [|reflexivity].
+  rewrite (unit_eqb_neq _ _ Hp), He. reflexivity.
+Qed.
+
+Lemma sim_set_input_divide v n h P a T :
+  v_rule v = RDivide -> eternal v = false -> not_after_end v P -> p_unit P <> Eternity ->
+  Z.of_nat (length a) = n -> walk_tiles v P = Ok T ->
+  sim_set_input v n h P a = divide_tiles v n h T (map (cast (v_type v)) a).
+Proof.
+  intros Hr He Hend Hp Ha Hw. rewrite sim_to_holder by assumption.
+  unfold holder_set_input. rewrite (unit_eqb_neq _ _ Hp). cbn [andb]. rewrite Hr.
+  unfold set_input_divide_by_period. rewrite (to_array_ok v n a Ha). cbn [bind].
+  rewrite He, Hw. reflexivity.
+Qed.
+
+Lemma sim_set_input_dispatch v n h P a T :
+  v_rule v = RDispatch -> eternal v = false -> not_after_end v P -> p_unit P <> Eternity ->
+  Z.of_nat (length a) = n -> walk_tiles v P = Ok T ->
+  sim_set_input v n h P a = dispatch_tiles v n h T (map (cast (v_type v)) a).
+Proof.
+  intros Hr He Hend Hp Ha Hw. rewrite sim_to_holder by assumption.
+  unfold holder_set_input. rewrite (unit_eqb_neq _ _ Hp). cbn [andb]. rewrite Hr.
+  unfold set_input_dispatch_by_period. rewrite (to_array_ok v n a Ha). cbn [bind].
+  rewrite He, Hw. reflexivity.
+Qed.
+
+(** * Histories *)
+
+Lemma sim_set_input_persist v n h P a h' : v_rule v <> RNone -> sim_set_input v n h P a = Ok h' ->
+  forall q x, get h q = Some x -> get h' q = Some x.
+Proof.
+  intros Hr H q x Hq. unfold sim_set_input in H.
+  assert (G : holder_set_input v n h P a = Ok h' -> get h' q = Some x).
+  { clear H. unfold holder_set_input. destruct (_ && _); [discriminate|].
+    destruct (v_rule v); [contradiction| |].
+    - unfold set_input_divide_by_period. destruct (to_array v n a); cbn [bind]; [|discriminate].
+      destruct (eternal v); [discriminate|]. destruct (walk_tiles v P); cbn [bind]; [|discriminate].
+      intros H. eapply divide_tiles_persist; eassumption.
+    - unfold set_input_dispatch_by_period. destruct (to_array v n a); cbn [bind]; [|discriminate].
+      destruct (eternal v); [discriminate|]. destruct (walk_tiles v P); cbn [bind]; [|discriminate].
+      intros H. eapply dispatch_tiles_persist; eassumption. }
+  destruct (v_end v); [|auto].
+  destruct (unit_eqb (p_unit P) Eternity); [discriminate|].
+  destruct (date_ltb d (p_start P)); [inversion H; subst; assumption|auto].
+Qed.
+
+Lemma sim_set_input_wf v n h P a h' : sim_set_input v n h P a = Ok h' -> wf_holder n h -> wf_holder n h'.
+Proof.
+  intros H Hw. unfold sim_set_input in H.
+  assert (G : holder_set_input v n h P a = Ok h' -> wf_holder n h').
+  { clear H. unfold holder_set_input. destruct (_ && _); [discriminate|].
+    destruct (v_rule v).
+    - intros H. apply set_inv in H. destruct H as [-> Hl]. apply wf_put; [assumption|].
+      rewrite map_length. assumption.
+    - unfold set_input_divide_by_period. destruct (to_array v n a); cbn [bind]; [|discriminate].
+      destruct (eternal v); [discriminate|]. destruct (walk_tiles v P); cbn [bind]; [|discriminate].
+      intros H. eapply divide_tiles_wf; eassumption.
+    - unfold set_input_dispatch_by_period. destruct (to_array v n a); cbn [bind]; [|discriminate].
+      destruct (eternal v); [discriminate|]. destruct (walk_tiles v P); cbn [bind]; [|discriminate].
+      intros H. eapply dispatch_tiles_wf; eassumption. }
+  destruct (v_end v); [|auto].
+  destruct (unit_eqb (p_unit P) Eternity); [discriminate|].
+  destruct (date_ltb d (p_start P)); [inversion H; subst; assumption|auto].
+Qed.
+
+Lemma step_persist v n h s : v_rule v <> RNone ->
+  forall q x, get h q = Some x -> get (step_holder v n h s) q = Some x.
+Proof.
+  intros Hr q x Hq. unfold step_holder. destruct (sim_set_input v n h (fst s) (snd s)) eqn:E; [|assumption].
+  eapply sim_set_input_persist; eassumption.
+Qed.
+
+Lemma step_wf v n h s : wf_holder n h -> wf_holder n (step_holder v n h s).
+Proof.
+  intros Hw. unfold step_holder. destruct (sim_set_input v n h (fst s) (snd s)) eqn:E; [|assumption].
+  eapply sim_set_input_wf; eassumption.
+Qed.
+
+Lemma run_steps_persist v n : v_rule v <> RNone -> forall steps h q x,
+  get h q = Some x -> get (run_steps v n h steps) q = Some x.
+Proof.
+  intros Hr. induction steps as [|s steps IH]; intros h q x Hq; [assumption|].
+  cbn [run_steps fold_left]. apply IH. apply step_persist; assumption.
+Qed.
+
+Lemma run_steps_wf v n : forall steps h, wf_holder n h -> wf_holder n (run_steps v n h steps).
+Proof.
+  induction steps as [|s steps IH]; intros h Hw; [assumption|].
+  cbn [run_steps fold_left]. apply IH. apply step_wf; assumption.
+Qed.
+
+Lemma run_steps_app v n h s1 s2 : run_steps v n h (s1 ++ s2) = run_steps v n (run_steps v n h s1) s2.
+Proof. unfold run_steps. apply fold_left_app. Qed.
